@@ -70,7 +70,7 @@ CLAIMS = {
              'discriminant. For each of the 14/13 packet variants the encoder writes the specified type+flags byte and the decoder maps it back to the same variant; the PUBLISH first-byte '
              'expression and the decoders\' dup/qos/retain expressions round-trip for all 12 combinations. Every decoder property loop accepts exactly the identifiers allowed in its packet with '
              'the specified wire type and repeatability; every emitted property is allowed in its packet, has a field of the specified wire type, every allowed property can be emitted, and each '
-             'identifier is decoded into the very field it is encoded from (52 pairs); for 18 packet types the encoder's and the decoder's sequence of wire tokens (type and field per position, loops, property blocks) are equal. Imported: every encoder writes exactly what its size function counts and length prefixes have the right '
+             'identifier is decoded into the very field it is encoded from (52 pairs); for 18 packet types the sequences of wire tokens of encoder and decoder (type and field per position, loops, property blocks) are equal. Imported: every encoder writes exactly what its size function counts and length prefixes have the right '
              'width (C09), decoders accept a frame only after reading all of it (C02).',
         note='Not decided: equality of concrete field values after a round trip (string contents, numeric values), agreement of the fixed-field order with the specification text (encoder and decoder are compared with each other, not with a transcribed layout), '
              'acceptance of every legal property ORDER (follows from the loop shape but is not separately proven), an independent spec encoder/decoder. Spec tables are hand transcriptions.',
